@@ -15,9 +15,12 @@
    It fails on the recorded input class (known_findings.txt; Refuted/C01_amp_bound.v): a bright, coarsely sampled, off-centre source
    violates `amp (1 - 1.05 g) <= innerclip rms`, the upper bound of the amplitude then excludes the truth, and the reported peak is
    1.05 g x truth with flags = 0.  C01_truth_within_bounds_partial derives that condition; C01_recovery carries it (in_box).
-   A second recorded finding concerns a part that is validated by execution only (tools/harness/c01.py replays it): an exact tie
-   between two diagonal pixels gives two summits, hence two components ("exactly one component" is not a theorem here: C01_recovery
-   is per summit).  A defect found by this check (err_a / err_b of fitting.errors understated: sigma instead of FWHM, x component
+   "EXACTLY ONE COMPONENT" IS NOT A THEOREM HERE: C01_recovery is per summit, and the number of summits of an island is validated by
+   execution only, for sources whose summit region (pixels of negative curvature above the outer clip) is one 4-connected region, i.e.
+   whose sampled image has a single 3x3 local maximum.  Otherwise (second recorded finding, replayed by tools/harness/c01.py: an exact
+   tie between two diagonal pixels, or the second lattice minimum of an oblique ridge of axis ratio >~ 3.5) the source is split into
+   components of identical shape whose peak fluxes sum to the injected peak.
+   A defect found by this check (err_a / err_b of fitting.errors understated: sigma instead of FWHM, x component
    only, and not exchanged when the optimiser returns sx < sy) was repaired in /repo; C01_err_axes states what the repaired expressions compute. *)
 From Coq Require Import Reals List Arith Lra.
 From Coquelicot Require Import Coquelicot.
